@@ -52,7 +52,17 @@ func bindArrayList(d *drv, l *arraylist.List[int]) {
 	}
 	d.links = func() bool { e, c, _ := l.VerifRaw(); return len(e) <= c && len(e) == l.Size() }
 	d.fingerprint = func() string { return arrayListFP(l) }
-	d.mutate = func() { l.Clear(); l.Add(mutateMark) }
+	d.mutate = func() {
+		// in-place writes first (Clear may replace the backing structure and hide sharing)
+		if l.Size() > 0 {
+			l.Set(0, mutateMark)
+			l.Set(l.Size()-1, mutateMark+1)
+		}
+		l.Add(mutateMark)
+		l.Remove(0)
+		l.Clear()
+		l.Add(mutateMark)
+	}
 }
 
 func sllFP(l *singlylinkedlist.List[int]) string {
@@ -86,7 +96,17 @@ func bindSLL(d *drv, l *singlylinkedlist.List[int]) {
 	}
 	d.links = func() bool { return sllLinks(l) }
 	d.fingerprint = func() string { return sllFP(l) }
-	d.mutate = func() { l.Clear(); l.Add(mutateMark) }
+	d.mutate = func() {
+		// in-place writes first (Clear may replace the backing structure and hide sharing)
+		if l.Size() > 0 {
+			l.Set(0, mutateMark)
+			l.Set(l.Size()-1, mutateMark+1)
+		}
+		l.Add(mutateMark)
+		l.Remove(0)
+		l.Clear()
+		l.Add(mutateMark)
+	}
 }
 
 func dllFP(l *doublylinkedlist.List[int]) string {
@@ -128,5 +148,15 @@ func bindDLL(d *drv, l *doublylinkedlist.List[int]) {
 	}
 	d.links = func() bool { return dllLinks(l) }
 	d.fingerprint = func() string { return dllFP(l) }
-	d.mutate = func() { l.Clear(); l.Add(mutateMark) }
+	d.mutate = func() {
+		// in-place writes first (Clear may replace the backing structure and hide sharing)
+		if l.Size() > 0 {
+			l.Set(0, mutateMark)
+			l.Set(l.Size()-1, mutateMark+1)
+		}
+		l.Add(mutateMark)
+		l.Remove(0)
+		l.Clear()
+		l.Add(mutateMark)
+	}
 }
